@@ -2,6 +2,7 @@ package props
 
 import (
 	"fmt"
+	"go/token"
 	"go/types"
 	"sort"
 	"strings"
@@ -165,26 +166,92 @@ func c10Scope(c *an.Ctx) (map[*ssa.Function]bool, []string) {
 	}
 	scope := map[*ssa.Function]bool{}
 	cg := p.CG()
-	var walk func(fn *ssa.Function)
-	walk = func(fn *ssa.Function) {
-		if scope[fn] {
-			return
+	// A call through a function-typed parameter (a callback handed to a shared traversal or to a
+	// helper that two callers were merged into) is followed only into the function values that
+	// callers in scope actually pass: the call graph alone would connect every caller's callback
+	// to every other caller.  When some caller in scope reaches the function through a dynamic
+	// call, or passes something that is not a closure or a named function, all call-graph targets
+	// are followed.
+	type pkey struct {
+		fn  *ssa.Function
+		idx int
+	}
+	passed := map[pkey]map[*ssa.Function]bool{}
+	anyArg := map[pkey]bool{}
+	dynCalled := map[*ssa.Function]bool{}
+	pend := map[pkey][]*ssa.Function{}
+	isFuncT := func(t types.Type) bool {
+		_, ok := t.Underlying().(*types.Signature)
+		return ok
+	}
+	var funcValue func(v ssa.Value) *ssa.Function
+	funcValue = func(v ssa.Value) *ssa.Function {
+		switch x := v.(type) {
+		case *ssa.MakeClosure:
+			f, _ := x.Fn.(*ssa.Function)
+			return f
+		case *ssa.Function:
+			return x
+		case *ssa.ChangeType:
+			return funcValue(x.X)
 		}
+		return nil
+	}
+	inScopePkg := func(fn *ssa.Function) bool {
 		pk := fn.Package()
 		if pk == nil && fn.Origin() != nil {
 			pk = fn.Origin().Package()
 		}
 		if pk == nil || !strings.HasPrefix(pk.Pkg.Path(), an.ModPath) {
-			return
+			return false
 		}
 		// logging/util are not outputs
-		if strings.HasSuffix(pk.Pkg.Path(), "/util") {
+		return !strings.HasSuffix(pk.Pkg.Path(), "/util")
+	}
+	var walk func(fn *ssa.Function)
+	walk = func(fn *ssa.Function) {
+		if scope[fn] || !inScopePkg(fn) {
 			return
 		}
 		scope[fn] = true
 		if n := cg.Nodes[fn]; n != nil {
 			for _, e := range n.Out {
-				walk(e.Callee.Func)
+				callee := e.Callee.Func
+				if e.Site != nil {
+					cc := e.Site.Common()
+					if !cc.IsInvoke() {
+						if prm, isP := cc.Value.(*ssa.Parameter); isP && prm.Parent() == fn && isFuncT(prm.Type()) {
+							for i, q := range fn.Params {
+								if q == prm {
+									k := pkey{fn, i}
+									pend[k] = append(pend[k], callee)
+								}
+							}
+							continue
+						}
+					}
+					if cc.StaticCallee() == callee && !cc.IsInvoke() {
+						for j, a := range cc.Args {
+							if j >= len(callee.Params) || !isFuncT(a.Type()) {
+								continue
+							}
+							k := pkey{callee, j}
+							if t := funcValue(a); t != nil {
+								if passed[k] == nil {
+									passed[k] = map[*ssa.Function]bool{}
+								}
+								passed[k][t] = true
+							} else if !an.IsNil(a) {
+								anyArg[k] = true
+							}
+						}
+					} else {
+						dynCalled[callee] = true
+					}
+				} else {
+					dynCalled[callee] = true
+				}
+				walk(callee)
 			}
 		}
 		for _, a := range fn.AnonFuncs {
@@ -192,7 +259,22 @@ func c10Scope(c *an.Ctx) (map[*ssa.Function]bool, []string) {
 		}
 	}
 	for _, r := range roots {
+		dynCalled[r] = true
 		walk(r)
+	}
+	for changed := true; changed; {
+		changed = false
+		for k, targets := range pend {
+			for _, t := range targets {
+				if scope[t] {
+					continue
+				}
+				if dynCalled[k.fn] || anyArg[k] || passed[k][t] {
+					walk(t)
+					changed = changed || scope[t]
+				}
+			}
+		}
 	}
 	return scope, rootNames
 }
@@ -215,18 +297,54 @@ func c10Config(p *an.Prog) *an.OrderConfig {
 			return false
 		},
 		IsSort: func(c ssa.CallInstruction) (ssa.Value, bool) {
-			f := c.Common().StaticCallee()
-			if f != nil && f.Origin() != nil {
-				f = f.Origin() // slices.Sort[[]string] is an instantiation without a package of its own
+			if v, ok := stdSortArg(c); ok {
+				return v, true
 			}
-			if f == nil || f.Pkg == nil {
+			// a helper of this module that sorts one of its slice parameters on every path
+			// (sortRetainParams(params) { sort.Slice(params, ...) })
+			h := c.Common().StaticCallee()
+			if h == nil || h.Blocks == nil || h.Pkg == nil || !strings.HasPrefix(h.Pkg.Pkg.Path(), an.ModPath) || c.Common().IsInvoke() {
 				return nil, false
 			}
-			pp := f.Pkg.Pkg.Path()
-			if (pp == "sort" || pp == "slices") && len(c.Common().Args) > 0 {
-				switch f.Name() {
-				case "Strings", "Ints", "Slice", "SliceStable", "Sort", "Stable", "SortFunc", "SortStableFunc", "Float64s":
-					return c.Common().Args[0], true
+			for j, prm := range h.Params {
+				if j >= len(c.Common().Args) {
+					break
+				}
+				if _, isSlice := prm.Type().Underlying().(*types.Slice); !isSlice {
+					continue
+				}
+				md := &an.MustDo{Pred: func(x ssa.Instruction) bool {
+					cl := an.AsCallAny(x)
+					if cl == nil {
+						return false
+					}
+					v, ok := stdSortArg(cl)
+					if !ok {
+						return false
+					}
+					if mi, isMI := v.(*ssa.MakeInterface); isMI {
+						v = mi.X
+					}
+					if v == ssa.Value(prm) {
+						return true
+					}
+					// a parameter captured by the comparator closure lives in a cell
+					if ld, isLd := v.(*ssa.UnOp); isLd && ld.Op == token.MUL {
+						if a, isA := ld.X.(*ssa.Alloc); isA {
+							stores, fromPrm := 0, false
+							for _, r := range an.Referrers(a) {
+								if st, isSt := r.(*ssa.Store); isSt && st.Addr == ssa.Value(a) {
+									stores++
+									fromPrm = st.Val == ssa.Value(prm)
+								}
+							}
+							return stores == 1 && fromPrm
+						}
+					}
+					return false
+				}, Depth: 0}
+				if md.Fn(h) {
+					return c.Common().Args[j], true
 				}
 			}
 			return nil, false
@@ -429,4 +547,23 @@ func runC10(c *an.Ctx) {
 	ruleD3(c, fns, cfg)
 	ruleD5(c)
 	c10PositiveExamples(c, cfg)
+}
+
+// stdSortArg: c is a call of a sorting function of package sort or slices; the value sorted.
+func stdSortArg(c ssa.CallInstruction) (ssa.Value, bool) {
+	f := c.Common().StaticCallee()
+	if f != nil && f.Origin() != nil {
+		f = f.Origin() // slices.Sort[[]string] is an instantiation without a package of its own
+	}
+	if f == nil || f.Pkg == nil {
+		return nil, false
+	}
+	pp := f.Pkg.Pkg.Path()
+	if (pp == "sort" || pp == "slices") && len(c.Common().Args) > 0 {
+		switch f.Name() {
+		case "Strings", "Ints", "Slice", "SliceStable", "Sort", "Stable", "SortFunc", "SortStableFunc", "Float64s":
+			return c.Common().Args[0], true
+		}
+	}
+	return nil, false
 }
